@@ -893,19 +893,26 @@ class DATETIME(NUMERIC):
     def parse_range(self, fieldname, start, end, startexcl, endexcl,
                     boost=1.0):
         from whoosh import query
+        from whoosh.util.times import floor, ceil
 
         if start is None and end is None:
             return query.Every(fieldname, boost=boost)
 
+        # A fully specified date string parses to a datetime, which has no
+        # floor()/ceil() methods of its own. An exclusive bound excludes the
+        # whole period the date string stands for.
         if start is not None:
-            startdt = self._parse_datestring(start).floor()
+            startat = self._parse_datestring(start)
+            startdt = ceil(startat) if startexcl else floor(startat)
             start = datetime_to_long(startdt)
 
         if end is not None:
-            enddt = self._parse_datestring(end).ceil()
+            endat = self._parse_datestring(end)
+            enddt = floor(endat) if endexcl else ceil(endat)
             end = datetime_to_long(enddt)
 
-        return query.NumericRange(fieldname, start, end, boost=boost)
+        return query.NumericRange(fieldname, start, end, startexcl, endexcl,
+                                  boost=boost)
 
 
 class BOOLEAN(FieldType):
